@@ -68,7 +68,7 @@ def run(rep, tier, seed, replay):
                         "commands that are not keyed (INFO, TIME, HOTKEY, SCAN) are outside this model (SCAN: C18)"]
     pr = vlib.prove(rep, PROP)
     vlib.prepare_runners()
-    found = check_program(rep, PROP, "c03", tier, seed, replay, 250, 6000, "Programs through the real processor and a simulated cluster vs the model (replies, per-node logs, redirects)")
+    found = check_program(rep, PROP, "c03", tier, seed, replay, 250, 3000, "Programs through the real processor and a simulated cluster vs the model (replies, per-node logs, redirects)")
     # "delivered first to the slot's owner" while the routing table is being refreshed under load, with replicas around (end to end)
     v = replica_routing(rep, PROP, seed + 7, tier)
     if v and not found:
